@@ -1,5 +1,5 @@
 //! Sequence explorer (histories): every sequence of up to `depth` instructions over an alphabet
-//! (a property's own instructions plus a shared context alphabet of 21 instructions), containing at least one of the
+//! (a property's own instructions plus a shared context alphabet of 22 instructions), containing at least one of the
 //! property's instructions, is rendered to ONE source program, assembled by the real Preprocessor and
 //! executed line by line by ONE real Interpreter object on ONE machine without reloading it; after
 //! every step the complete register file, the flags and the touched memory cells are compared with the
@@ -29,6 +29,7 @@ pub fn context_alphabet() -> Vec<Instr> {
         ins(mov(r16("ax"), imm(0x1234))),
         ins(mov(r16("bx"), imm(0x80FF))),
         ins(mov(r16("cx"), imm(3))),
+        ins(mov(r16("cx"), imm(0))),
         ins(mov(direct(W::W, 0x0020), imm(0xA5C3))),
         ins(mov(r8("al"), direct(W::B, 0x0021))),
         ins(push(r16("ax"))),
